@@ -304,7 +304,12 @@ impl<'a> Gen<'a> {
                 // A-sizes: the total may not pass usize::MAX while the grown value is accounted for
                 // (`current_size += diff` happens before the eviction)
                 let h = match e {
-                    Some(e) if self.prof.name == "extreme" => h.min(e.v.heap.saturating_add(usize::MAX - snap.cur)),
+                    // the boundary itself: the growth that takes `current_size + diff` to exactly usize::MAX, and one more
+                    Some(e) if self.prof.name == "extreme" && self.rng.chance(1, 5) =>
+                        e.v.heap.saturating_add(usize::MAX - snap.cur).saturating_add(self.rng.below(2) as usize).min(usize::MAX - self.ovh - kh - 64),
+                    // (one growing mutate in six is left unclamped: the overflow of `current_size += diff`
+                    // is then the predicted outcome, `ar=ovf`)
+                    Some(e) if self.prof.name == "extreme" && !self.rng.chance(1, 6) => h.min(e.v.heap.saturating_add(usize::MAX - snap.cur)),
                     _ => h,
                 };
                 if self.rng.chance(1, 4) {
